@@ -73,6 +73,20 @@ func c09IonShared(i c09Import) ion.SharedSymbolTable {
 	return ion.NewSharedSymbolTable(p.Name, p.Version, p.Symbols).Adjust(uint64(i.max))
 }
 
+// c09IonSharedVia adjusts in steps (first padded to size+2, or padded to size+3 and back to its size): the result must be the table
+// that one Adjust gives, whatever the table was adjusted to before.
+func c09IonSharedVia(i c09Import, via int) ion.SharedSymbolTable {
+	p := c09Pool[i.pool]
+	t := ion.NewSharedSymbolTable(p.Name, p.Version, p.Symbols)
+	switch via {
+	case 1:
+		t = t.Adjust(uint64(len(p.Symbols) + 2))
+	case 2:
+		t = t.Adjust(uint64(len(p.Symbols) + 3)).Adjust(uint64(len(p.Symbols)))
+	}
+	return t.Adjust(uint64(i.max))
+}
+
 // refTable builds the reference slot list.
 func c09RefTable(imps []c09Import, present []bool, locals []string) *refsym.Table {
 	t := refsym.System()
@@ -199,13 +213,16 @@ func c09Body(c *mc.Ctx) {
 	case 0: // constructed directly
 		imps := c09PickImports(c, maxImports, true)
 		locals := c09PickLocals(c, maxLocals)
-		c.Case(func() string { return fmt.Sprintf("NewLocalSymbolTable(imports=%v, symbols=%q)", imps, locals) })
+		via := c.Pick("adjusted-before", 3)
+		c.Case(func() string {
+			return fmt.Sprintf("NewLocalSymbolTable(imports=%v, symbols=%q) %s", imps, locals, []string{"", "each import first adjusted to size+2", "each import first adjusted to size+3 and back to its size"}[via])
+		})
 		c.Class("direct")
 		var st ion.SymbolTable
 		if failPanic(c, drive.Safe(func() {
 			var is []ion.SharedSymbolTable
 			for _, i := range imps {
-				is = append(is, c09IonShared(i))
+				is = append(is, c09IonSharedVia(i, via))
 			}
 			st = ion.NewLocalSymbolTable(is, locals)
 		})) {
@@ -249,6 +266,14 @@ func c09Body(c *mc.Ctx) {
 			sl.Kids = append(sl.Kids, rm.StrV(l))
 		}
 		lst.Kids = append(lst.Kids, sl.F("symbols"))
+		// the same table declared in two steps: the imports alone, then a table that appends the locals
+		tables := []*rm.Value{lst}
+		split := c.Pick("two-steps", 2) == 1
+		if split {
+			first := rm.StructV(il.F("imports")).A("$ion_symbol_table")
+			second := rm.StructV(rm.SymV("$ion_symbol_table").F("imports"), sl.F("symbols")).A("$ion_symbol_table")
+			tables = []*rm.Value{first, second}
+		}
 		var data []byte
 		if binary {
 			ids := map[string]uint64{}
@@ -256,13 +281,16 @@ func c09Body(c *mc.Ctx) {
 				ids[s] = uint64(i + 1)
 			}
 			e := &refbin.Encoder{Ch: rm.Canon{}, SID: func(t string) uint64 { return ids[t] }}
-			data = append(append([]byte{}, refbin.BVM...), e.Value(lst)...)
+			data = append([]byte{}, refbin.BVM...)
+			for _, t := range tables {
+				data = append(data, e.Value(t)...)
+			}
 			data = append(data, 0x20)
 		} else {
-			data = reftext.Print(rm.Canon{}, []*rm.Value{lst, rm.IntV(0)})
+			data = reftext.Print(rm.Canon{}, append(append([]*rm.Value{}, tables...), rm.IntV(0)))
 		}
 		c.Case(func() string {
-			return fmt.Sprintf("reader LST imports=%v in-catalog=%v symbols=%q binary=%v", imps, present, locals, binary)
+			return fmt.Sprintf("reader LST imports=%v in-catalog=%v symbols=%q binary=%v declared-in-two-steps=%v", imps, present, locals, binary, split)
 		})
 		c.Class("reader")
 		var st ion.SymbolTable
@@ -360,7 +388,7 @@ func init() {
 	mc.Register(&mc.Check{
 		ID:    "C09",
 		Title: "Symbol tables assign and resolve symbol IDs as the Ion rules prescribe",
-		Rule: "every import list of length <= n over a pool of 5 shared tables (empty, overlapping text, internal duplicates, an empty-string slot, text equal to system symbols), each adjusted to every max_id in 0..size+2, x every local symbol list of length <= 3 over {a,b,'',name,x,q}, built (i) with NewLocalSymbolTable, (ii) by a Reader from an LST in text and binary with each import present in / missing from the catalog (placeholder tables), (iii) with a builder under every Add sequence of length <= k with and without Build after each Add. " +
+		Rule: "every import list of length <= n over a pool of 5 shared tables (empty, overlapping text, internal duplicates, an empty-string slot, text equal to system symbols), each adjusted to every max_id in 0..size+2, x every local symbol list of length <= 3 over {a,b,'',name,x,q}, built (i) with NewLocalSymbolTable, (ii) by a Reader from an LST in text and binary with each import present in / missing from the catalog (placeholder tables), declared at once or in two steps (imports only, then an appending table with the locals), (i) also with every import adjusted in two or three steps, (iii) with a builder under every Add sequence of length <= k with and without Build after each Add. " +
 			"On each table: MaxID, FindByID and NewSymbolTokenBySID for every id in 0..MaxID+2, FindByName/Find/NewSymbolToken for 9 texts, all compared with the reference slot list (system 1..9, each import exactly max_id slots padded/truncated, locals after; lowest-ID lookup); after each Add every earlier answer is re-asked, of the builder and of every table built before that Add (a built table is a snapshot). " +
 			"non-trivial = a complete query sweep matched the reference; distinct = distinct (construction way, all answers) digests",
 		Bounds:      map[string]string{"quick": "n=2 imports, k=3 adds", "thorough": "n=3 imports, k=4 adds"},
